@@ -96,7 +96,7 @@ fn quorum_err_kind(e: &QuorumError) -> &'static str {
 ///   vals = `<key>:<power>,…` | `.`
 ///   sigs = `o` (absent/nil) | `c:<addr>:<sigtag>` …   sigtag: `-` none, `0` garbage,
 ///          `w` = signed by the right key over another block id, `<k>` = valid signature by key k
-fn quorum_check(t: &[&str]) -> String {
+fn build_commit(t: &[&str], bid: tendermint::block::Id) -> (tendermint::block::Commit, validators::Response) {
     let heights_match = t[0] == "1";
     let vals: Vec<Validator> = if t[1] == "." {
         vec![]
@@ -121,7 +121,6 @@ fn quorum_check(t: &[&str]) -> String {
     };
     let height = 7u32;
     let timestamp = tendermint::Time::from_unix_timestamp(1, 1).unwrap();
-    let bid = block_id(3);
     let good_msg = vote_message(height, CHAIN, bid, timestamp);
     let wrong_msg = vote_message(height, CHAIN, block_id(4), timestamp);
     let signatures: Vec<CommitSig> = if t[2] == "." {
@@ -137,7 +136,8 @@ fn quorum_check(t: &[&str]) -> String {
                         CommitSig::BlockIdFlagNil {
                             validator_address: address(1),
                             timestamp,
-                            signature: None,
+                            // a nil vote is only wire-valid (JSON-RPC round trip) with a signature
+                            signature: Some(tendermint::Signature::try_from(vec![0x2au8; 64]).unwrap()),
                         }
                     };
                 }
@@ -175,6 +175,11 @@ fn quorum_check(t: &[&str]) -> String {
     let vheight = if heights_match { height } else { height + 1 };
     let total = vals.len() as i32;
     let validator_set = validators::Response::new(vheight.into(), vals, total);
+    (commit, validator_set)
+}
+
+fn quorum_check(t: &[&str]) -> String {
+    let (commit, validator_set) = build_commit(t, block_id(3));
     let chain_id: tendermint::chain::Id = CHAIN.try_into().unwrap();
     match no_panic(move || ensure_commit_has_quorum(&commit, &validator_set, &chain_id)) {
         Some(Ok(())) => "ok".to_string(),
@@ -250,11 +255,76 @@ fn quorum_meta(rt: &tokio::runtime::Runtime, t: &[&str]) -> String {
     })
 }
 
+/// quorum fetchmeta <hm> <vals> <sigs> <chain_eq> <hash_eq>: metadata for height 7 verified through
+/// the REAL `VerificationMeta::fetch` (commit + validator set fetched from a mocked sequencer
+/// RPC, then `ensure_commit_has_quorum`) followed by the chain-id / block-hash comparison.
+fn quorum_fetchmeta(rt: &tokio::runtime::Runtime, t: &[&str]) -> String {
+    use serde_json::json;
+    use wiremock::{
+        matchers::body_partial_json,
+        Mock,
+        MockServer,
+        ResponseTemplate,
+    };
+    let chain_eq = t[3] == "1";
+    let hash_eq = t[4] == "1";
+    let height = 7u32;
+    // the commit (and the votes in it) are for block hash [3; 32] on chain CHAIN
+    let (commit, validator_set) = build_commit(&t[..3], block_id(3));
+    let meta_hash = if hash_eq { 3u8 } else { 4u8 };
+    let meta_chain = if chain_eq { CHAIN.to_string() } else { format!("{CHAIN}-other") };
+    let block = ConfigureSequencerBlock {
+        block_hash: Some(block::Hash::new([meta_hash; 32])),
+        chain_id: Some(meta_chain),
+        height,
+        ..Default::default()
+    }
+    .make();
+    let (metadata, _) = block.split_for_celestia();
+    let mut header = signed_header(height, CHAIN, 3).header;
+    header.height = height.into();
+    let signed = tendermint::block::signed_header::SignedHeader::new(header, commit).unwrap();
+    rt.block_on(async move {
+        let server = MockServer::start().await;
+        Mock::given(body_partial_json(json!({"jsonrpc": "2.0", "method": "commit"})))
+            .respond_with(ResponseTemplate::new(200).set_body_json(
+                sequencer_client::tendermint_rpc::response::Wrapper::new_with_id(
+                    sequencer_client::tendermint_rpc::Id::uuid_v4(),
+                    Some(sequencer_client::tendermint_rpc::endpoint::commit::Response {
+                        signed_header: signed,
+                        canonical: true,
+                    }),
+                    None,
+                ),
+            ))
+            .mount(&server)
+            .await;
+        Mock::given(body_partial_json(json!({"jsonrpc": "2.0", "method": "validators"})))
+            .respond_with(ResponseTemplate::new(200).set_body_json(
+                sequencer_client::tendermint_rpc::response::Wrapper::new_with_id(
+                    sequencer_client::tendermint_rpc::Id::uuid_v4(),
+                    Some(validator_set),
+                    None,
+                ),
+            ))
+            .mount(&server)
+            .await;
+        let client = sequencer_client::HttpClient::new(&*server.uri()).unwrap();
+        let verifier = Arc::new(BlobVerifier::try_new(client, 1000).unwrap());
+        match tokio::time::timeout(std::time::Duration::from_secs(20), verifier.verify_metadata(metadata)).await {
+            Ok(Some(_)) => "accept".to_string(),
+            Ok(None) => "drop".to_string(),
+            Err(_) => "timeout".to_string(),
+        }
+    })
+}
+
 fn exec(rt: &tokio::runtime::Runtime, op: &str) -> String {
     let t: Vec<&str> = op.split(' ').collect();
     match t[0] {
         "check" => quorum_check(&t[1..]),
         "meta" => quorum_meta(rt, &t[1..]),
+        "fetchmeta" => quorum_fetchmeta(rt, &t[1..]),
         _ => panic!("unknown op {op}"),
     }
 }
@@ -353,6 +423,18 @@ fn gen_ops(rng: &mut Rng, thorough: bool) -> Vec<String> {
     let n = if thorough { 20000 } else { 700 };
     for _ in 0..n {
         ops.push(gen_check(rng));
+    }
+    // end to end through VerificationMeta::fetch (mocked sequencer RPC)
+    let m = if thorough { 600 } else { 60 };
+    for i in 0..m {
+        let c = gen_check(rng);
+        let spec = c.strip_prefix("check ").unwrap();
+        let (ce, he) = match i % 6 {
+            0 => (0, 1),
+            1 => (1, 0),
+            _ => (1, 1),
+        };
+        ops.push(format!("fetchmeta {spec} {ce} {he}"));
     }
     ops
 }
